@@ -14,7 +14,7 @@ SCALARS = ["bool", "i8", "i16", "i32", "i64", "u8", "u16", "u32", "f32", "f64", 
 RULES = [("lowercase", "lower"), ("UPPERCASE", "upper"), ("PascalCase", "pascal"), ("camelCase", "camel"), ("snake_case", "snake"),
          ("SCREAMING_SNAKE_CASE", "ssnake"), ("kebab-case", "kebab"), ("SCREAMING-KEBAB-CASE", "skebab")]
 FIELD_IDENTS = ["a", "b1", "my_field", "some_long_name", "x_y_z", "count", "id", "inner_value", "flag2", "the_name"]
-VARIANT_IDENTS = ["Alpha", "BetaGamma", "Delta2", "VeryLongVariantName", "X", "HttpError", "Ok2"]
+VARIANT_IDENTS = ["Alpha", "BetaGamma", "Delta2", "VeryLongVariantName", "X", "HttpError", "Ok2", "IOError", "V2Beta", "HTTPRequest"]
 NAMESPACES = [None, None, None, "ns", "com.example", "a.b_c"]
 
 
@@ -39,7 +39,7 @@ def ty_expr(depth, allow_named=True, avoid_union=False):
     if depth >= 3 or roll < 0.45:
         s = rnd.choice(SCALARS)
         name = {"String": "string"}.get(s, s)
-        if s in ("i128", "u128"):
+        if s in ("i128", "u128", "u64"):
             # serde's buffered Content (flatten, tagged enums) has no 128-bit integers: such a struct is no flatten target
             cur["simple"] = False
         return s, name, scalar_gen(s), False
